@@ -25,6 +25,17 @@ theorem insertChain_shape_in_code :
     Gen.InsertChainReturns.length = 15 ∧
     Gen.InsertChainRollbackBeforeApplyLoop = true := by decide
 
+/-- the node state `n` of the model is the chain the node has AT INSERTION TIME: in the working tree `InsertChain` takes the
+    chain's insert lock (`c.chain.AcquireInsert`), releases it by a deferred `Unlock`, and reads NOTHING from the node — no call on
+    the receiver `c` (chain, consensus, supervisor) or on a value obtained from such a call (a frontier store taken early is a
+    snapshot of the chain as it was BEFORE the wait for the lock) — before the lock is held (AST facts). A delivery that waits for
+    the lock while the pillar or another import extends the chain is therefore judged (known prefix, strictly longer, window of
+    `InsertChainWindow`) against the frontier it finds when it is inserted; the stream delivers such batches (deliveries that wait
+    for the lock while the chain grows, `locked-*` lines) and replays them through `insertChain` on the grown node. -/
+theorem insertChain_reads_under_lock :
+    Gen.InsertChainLockAcquired = true ∧ Gen.InsertChainUnlockDeferred = true ∧
+    Gen.InsertChainNodeReadsBeforeLock = [] := by decide
+
 /-- T1 `adopt_conditions`: if the chain after the call is not an extension of the chain before, then the
     delivered suffix (what is left after the known prefix) starts one above an own momentum `target` whose
     hash it names as previous, `target` lies at most `InsertChainWindow` = 30 below the old frontier, and
